@@ -372,7 +372,11 @@ namespace occa {
       if (typeToken && type && (type->type() & typeType::enum_)) {
         return (typeToken->origin == type->source->origin);
       }
-      if (!has(typedef_)) {
+      // [typedef float myFloat;] has the typedef qualifier but its type is
+      // the primitive, not a typedef_t
+      if (!has(typedef_)
+          || !type
+          || !(type->type() & typeType::typedef_)) {
         return false;
       }
 
@@ -387,7 +391,11 @@ namespace occa {
       if (typeToken && type && (type->type() & typeType::struct_)) {
         return (typeToken->origin == type->source->origin);
       }
-      if (!has(typedef_)) {
+      // [typedef float myFloat;] has the typedef qualifier but its type is
+      // the primitive, not a typedef_t
+      if (!has(typedef_)
+          || !type
+          || !(type->type() & typeType::typedef_)) {
         return false;
       }
 
@@ -402,7 +410,11 @@ namespace occa {
       if (typeToken && type && (type->type() & typeType::union_)) {
         return (typeToken->origin == type->source->origin);
       }
-      if (!has(typedef_)) {
+      // [typedef float myFloat;] has the typedef qualifier but its type is
+      // the primitive, not a typedef_t
+      if (!has(typedef_)
+          || !type
+          || !(type->type() & typeType::typedef_)) {
         return false;
       }
 
